@@ -237,34 +237,41 @@ def take4 (l : List α) : Vec 4 α × List α :=
   ((fun i => a.getD i.val zero), l.drop 4)
 
 /-- `superposed::get_Stokes`: per instance one field of A then one of B, detected together -/
+def superposedStep (field : Jones α → Vec 4 α → Spinor α) (pA pB : Jones α) (acc : Stokes α × List α × Nat) (_ : Nat) :
+    Stokes α × List α × Nat :=
+  let gA := (take4 acc.2.1).1
+  let r1 := (take4 acc.2.1).2
+  let gB := (take4 r1).1
+  let r2 := (take4 r1).2
+  let e := Spinor.add (field pA gA) (field pB gB)
+  (stokesAdd acc.1 (Spinor.computeStokes e), r2, acc.2.2 + 8)
 def superposedGen (field : Jones α → Vec 4 α → Spinor α) (pA pB : Jones α) (n : Nat) (devs : List α) : Stokes α × Nat :=
-  let step := fun (acc : Stokes α × List α × Nat) (_ : Nat) =>
-    let (gA, r1) := take4 acc.2.1
-    let (gB, r2) := take4 r1
-    let e := Spinor.add (field pA gA) (field pB gB)
-    (stokesAdd acc.1 (Spinor.computeStokes e), r2, acc.2.2 + 8)
-  let r := (List.range n).foldl step (stokesZero, devs, 0)
+  let r := (List.range n).foldl (superposedStep field pA pB) (stokesZero, devs, 0)
   (stokesDivN r.1 n, r.2.2)
 
 /-- `composite::get_Stokes`: both modes draw in every iteration up to the larger count; an instance is
 added only below the mode's own count -/
+def compositeStep (field : Jones α → Vec 4 α → Spinor α) (pA pB : Jones α) (nA nB : Nat) (acc : Stokes α × List α × Nat) (i : Nat) :
+    Stokes α × List α × Nat :=
+  let gA := (take4 acc.2.1).1
+  let r1 := (take4 acc.2.1).2
+  let s1 := if i < nA then stokesAdd acc.1 (Spinor.computeStokes (field pA gA)) else acc.1
+  let gB := (take4 r1).1
+  let r2 := (take4 r1).2
+  let s2 := if i < nB then stokesAdd s1 (Spinor.computeStokes (field pB gB)) else s1
+  (s2, r2, acc.2.2 + 8)
 def compositeGen (field : Jones α → Vec 4 α → Spinor α) (pA pB : Jones α) (nA nB n : Nat) (devs : List α) : Stokes α × Nat :=
-  let step := fun (acc : Stokes α × List α × Nat) (i : Nat) =>
-    let (gA, r1) := take4 acc.2.1
-    let s1 := if i < nA then stokesAdd acc.1 (Spinor.computeStokes (field pA gA)) else acc.1
-    let (gB, r2) := take4 r1
-    let s2 := if i < nB then stokesAdd s1 (Spinor.computeStokes (field pB gB)) else s1
-    (s2, r2, acc.2.2 + 8)
-  let r := (List.range (max nA nB)).foldl step (stokesZero, devs, 0)
+  let r := (List.range (max nA nB)).foldl (compositeStep field pA pB nA nB) (stokesZero, devs, 0)
   (stokesDivN r.1 n, r.2.2)
 
 /-- `disjoint::get_Stokes`: one uniform deviate selects the mode for the whole sample -/
+def disjointStep (field : Jones α → Vec 4 α → Spinor α) (p : Jones α) (acc : Stokes α × List α × Nat) (_ : Nat) :
+    Stokes α × List α × Nat :=
+  let g := (take4 acc.2.1).1
+  let r1 := (take4 acc.2.1).2
+  (stokesAdd acc.1 (Spinor.computeStokes (field p g)), r1, acc.2.2 + 4)
 def disjointGen (field : Jones α → Vec 4 α → Spinor α) (pA pB : Jones α) (selectA : Bool) (n : Nat) (devs : List α) : Stokes α × Nat :=
-  let p := if selectA then pA else pB
-  let step := fun (acc : Stokes α × List α × Nat) (_ : Nat) =>
-    let (g, r1) := take4 acc.2.1
-    (stokesAdd acc.1 (Spinor.computeStokes (field p g)), r1, acc.2.2 + 4)
-  let r := (List.range n).foldl step (stokesZero, devs, 0)
+  let r := (List.range n).foldl (disjointStep field (if selectA then pA else pB)) (stokesZero, devs, 0)
   (stokesDivN r.1 n, r.2.2)
 
 def currentSqrt22Clamped : Bool := true
